@@ -24,6 +24,7 @@ import (
 
 	"verif/cmd/h-codec/cdump"
 	"verif/internal/coqfmt"
+	"verif/internal/ioshape"
 	"verif/internal/rng"
 )
 
@@ -103,10 +104,9 @@ func sumCount(c *encoding.Count, want reflect.Type) (msgs, bs int64) {
 func zList(xs ...int64) string {
 	var s []string
 	for _, x := range xs {
-		s = append(s, fmt.Sprint(x))
+		s = append(s, zTerm(x)) // negatives (failed calls) in parentheses
 	}
-	t := "[" + strings.Join(s, ";") + "]%Z"
-	return strings.ReplaceAll(t, ";-", ";(-") // negatives are never produced on a healthy tree; keep the term well-formed anyway
+	return "[" + strings.Join(s, ";") + "]%Z"
 }
 
 func zTerm(x int64) string {
@@ -116,7 +116,7 @@ func zTerm(x int64) string {
 	return fmt.Sprint(x)
 }
 
-func runCase(m message.Message, withProto bool) (term string, observed interface{}, direct string) {
+func runCase(m message.Message, withProto bool, sr *rng.R, count func(string)) (term string, observed interface{}, direct string) {
 	defer func() {
 		if r := recover(); r != nil {
 			direct = fmt.Sprintf("panic escaped the codec: %v", r)
@@ -143,7 +143,7 @@ func runCase(m message.Message, withProto bool) (term string, observed interface
 			}
 		}()
 	}
-	var encOK, decT, counts []string
+	var encOK, decT, counts, shapes []string
 	for i, e := range encs {
 		name := []string{"protobuf", "json"}[i]
 		var buf bytes.Buffer
@@ -183,12 +183,50 @@ func runCase(m message.Message, withProto bool) (term string, observed interface
 			}
 		}
 		counts = append(counts, zList(int64(n), int64(len(data)), int64(dn), txm, txb, rxm, rxb))
+		// the same encoding through other reader shapes (two sampled per case and encoding) ...
+		plain := cdump.Wire(dm)
+		var shapeObs []string
+		s1 := 1 + sr.Intn(ioshape.NReaderShapes-1)
+		s2 := 1 + (s1+sr.Intn(ioshape.NReaderShapes-2))%(ioshape.NReaderShapes-1)
+		for _, sh := range []int{s1, s2} {
+			top := &ioshape.Counting{R: ioshape.Reader(sh, data, sr.Fork())}
+			sn, sm, serr := e.DecodeFrom(top)
+			same := int64(0)
+			if serr == nil && sm != nil && cdump.Wire(sm) == plain {
+				same = 1
+			}
+			if serr != nil {
+				sn = -1
+			}
+			shapes = append(shapes, zList(0, int64(i), int64(sh), int64(sn), int64(top.N), int64(len(data)), same))
+			shapeObs = append(shapeObs, fmt.Sprintf("DecodeFrom %s: reported %d, pulled %d of %d, same message %d", ioshape.ReaderNames[sh], sn, top.N, len(data), same))
+			count(name + ":reader:" + ioshape.ReaderNames[sh])
+		}
+		// ... and EncodeTo into another writer shape
+		{
+			sh := 1 + sr.Intn(ioshape.NWriterShapes-1)
+			sink := &ioshape.Sink{Shape: sh}
+			wn, werr := e.EncodeTo(sink, m)
+			same := int64(0)
+			// the protobuf encoder writes map entries in Go's map order: compare by decoding
+			if werr == nil {
+				if _, wm, derr2 := e.DecodeFrom(bytes.NewReader(sink.Got)); derr2 == nil && cdump.Wire(wm) == plain {
+					same = 1
+				}
+			} else {
+				wn = -1
+			}
+			shapes = append(shapes, zList(1, int64(i), int64(sh), int64(wn), int64(len(sink.Got)), int64(len(data)), same))
+			shapeObs = append(shapeObs, fmt.Sprintf("EncodeTo %s: reported %d, writer received %d of %d, same message %d", ioshape.WriterNames[sh], wn, len(sink.Got), len(data), same))
+			count(name + ":writer:" + ioshape.WriterNames[sh])
+		}
+		obs[name+"_shapes"] = shapeObs
 	}
 	jsT := "(Some " + decT[1] + ")"
 	if decT[1] == decT[0] {
 		jsT = "None"
 	}
-	term = fmt.Sprintf("mkCC %s %s [%s] %s %s [%s]", cdump.Wire(m), protoT, strings.Join(encOK, ";"), decT[0], jsT, strings.Join(counts, ";"))
+	term = fmt.Sprintf("mkCC %s %s [%s] %s %s [%s] [%s]", cdump.Wire(m), protoT, strings.Join(encOK, ";"), decT[0], jsT, strings.Join(counts, ";"), strings.Join(shapes, ";"))
 	return term, obs, ""
 }
 
@@ -268,10 +306,10 @@ func main() {
 	add := func(ci *caseIn, kind string) {
 		ci.Type = cdump.MessageTypes[ci.Kind].Name()
 		m, _ := build(ci, nil, nil)
-		term, obs, direct := runCase(m, ci.WithProto)
+		term, obs, direct := runCase(m, ci.WithProto, rng.New(ci.Seed^0x5ade), w.Count)
 		c := coqfmt.Case{Term: term, Input: ci, Observed: obs, Nontrivial: !ci.Zero, Kind: kind, Direct: direct, Seed: ci.Seed}
 		if direct != "" {
-			c.Term = "mkCC VNil None [] Err None []"
+			c.Term = "mkCC VNil None [] Err None [] []"
 		}
 		w.Add(c)
 		w.Count("type:" + ci.Type)
@@ -375,7 +413,7 @@ func main() {
 		}
 	}
 	extra := map[string]interface{}{"choice_points": nPaths, "alternatives_enumerated": nAlts, "probes_outside_domain": probes()}
-	rule := "every message type: zero value; every (field path, alternative) of the grammar forced once with all other content random (result codes 1..36 and out-of-table numbers, QoS, every oneof variant incl. absent, nil/non-nil extension fields and sub-messages, nil/empty/1/few/8 collections, 7 time shapes); random contents (non-ASCII strings, extreme integers, durations at the wire limits, payloads 0..17 bytes, collections 0..8); hostile values outside the domain; large payloads. non-trivial = not the zero message; distinct = distinct Coq case terms"
+	rule := "every message type: zero value; every (field path, alternative) of the grammar forced once with all other content random (result codes 1..36 and out-of-table numbers, QoS, every oneof variant incl. absent, nil/non-nil extension fields and sub-messages, nil/empty/1/few/8 collections, 7 time shapes); random contents (non-ASCII strings, extreme integers, durations at the wire limits, payloads 0..17 bytes, collections 0..8); hostile values outside the domain; large payloads; every encoding that decodes is decoded again behind two sampled io.Reader shapes (last data together with io.EOF, one byte at a time, halves, random chunks with EOF on the last, (0,nil) now and then) and encoded again into a sampled io.Writer shape: reported count = bytes pulled / received = length of the encoding, same message. non-trivial = not the zero message; distinct = distinct Coq case terms"
 	if err := w.Flush(*seed, *tier, rule, false, extra); err != nil {
 		fmt.Fprintln(os.Stderr, err)
 		os.Exit(2)
